@@ -555,6 +555,30 @@ def gen_cases(rng, tier):
                 g = Gen(rng, shape, derivs=False)
                 x, _, _ = g.leaf('Y', list(shape))
                 cases.append(mk_case([name, params, x], g.env, 'lin:Y' + name))
+    # 1e. pickling with a requested precision (set_pickle_digits: lossy encodings scaled by 'largest' / 'mean' / 'logmean' /
+    #     'smallest' / a number) of LARGE smooth arrays with a SPARSE mask (1-2 masked elements in 64 ... 500) whose hidden
+    #     numbers are huge: the values restored at the unmasked elements must not depend on them
+    for _ in range(4 if thorough else 1):
+        for shape in ([64], [200], [20, 25], [8, 8], [3, 40]):
+            for t in ('F', 'V'):
+                for digits, ref in ((6, 'largest'), (6, 'mean'), (8, 'logmean'), (6, 1.0), (10, 'smallest'), (4, 'median'),
+                                    ('single', 'fpzip'), ('double', 'fpzip'), ([6, 5], ['largest', 'mean'])):
+                    n = int(np.prod(shape))
+                    isz = int(np.prod(O.ITEM[t], dtype=int))
+                    bits_ = [False] * n
+                    for k in rng.sample(range(n), rng.choice([1, 1, 2])):
+                        bits_[k] = True
+                    def smooth(lo, hi, phase):
+                        return [lo + (hi - lo) * ((i * isz + j + phase) / (n * isz)) for i in range(n) for j in range(isz)]
+                    def leaf_of(vis, mask):
+                        vals = [rng.choice([1.5, 1., 0.5]) if bits_[k // isz] else v for k, v in enumerate(vis)]
+                        h = rng.choice([1e12, -1e15, 1e300, 1e9, -1e6, 1e-300, 0.])
+                        alt = [h if bits_[k // isz] else v for k, v in enumerate(vis)]
+                        return {'t': t, 'shape': list(shape), 'vals': vals, 'alt': alt, 'mask': mask, 'derivs': {}, 'units': None}
+                    leaf = leaf_of(smooth(1., 2., 0), list(bits_))
+                    if t == 'F' and rng.random() < 0.4:
+                        leaf['derivs']['t'] = leaf_of(smooth(-1., 3., 1), list(bits_))
+                    cases.append(mk_case(['pickle_d', [digits, ref], ['v', 0]], [leaf], 'pickle_d:%s' % (ref if isinstance(ref, str) else 'num')))
     # 1b. the option values of the public element-wise and reducing methods
     for _ in range(8 if thorough else 2):
         for shape in SHAPES:
